@@ -434,7 +434,7 @@ def unwrap_try(t):
         a = m_call(t[1], name='branch', trait='Try')
         if a is None:
             break
-        t = a[0]
+        t = success_payload(a[0])
     return t
 
 
